@@ -17,7 +17,9 @@ CLAIMED = {
               "chromosomes in trans mode). Real balance_cooler / cooler-balance CLI runs on random integer matrices x modes x "
               "ignore_diags x min_nnz x min_count x blacklist x initial weights x rescaling x chunk sizes, on witness matrices and on "
               "the MAD-decidable family; TLC computes the expected NaN set / weights / scale from the integer data and compares "
-              "exactly (TLC itself checks that generated witness cases are witnesses)."),
+              "exactly (TLC itself checks that generated witness cases are witnesses). In trans-only mode the witness clause asks for "
+              "row sums 1 as the property states; the code's weights omit the chromosome-size factor of its own iteration - open "
+              "known finding F19, classified by TLC through the clause name."),
         design_ref="DESIGN.md section 6 C10, section 7",
         note=("NOT decided by this technique (floating point): the flatness bound for general matrices, MAD-max outside its decidable "
               "sub-family, convergence of general inputs. Trusted: TLC; exactness of power-of-two arithmetic in IEEE floats."),
@@ -99,7 +101,11 @@ CLAIMED = {
               "preserved. Real coarsen_cooler / `cooler coarsen` runs on ten table shapes x random stores x k (incl. k > bins) x "
               "chunk sizes x 1-3 processes x 1-2 value columns with sum/max/min x integer and float64 (dyadic) values x root/nested "
               "destination; chains k1 then k2 vs k1*k2 and coarsen(merge) vs merge(coarsened); TLC validates table, pixels, total, "
-              "ValidCSR, and the recorded span edges against the model."),
+              "ValidCSR, and the recorded span edges against the model. CoarsenLock.tla specifies the reader/writer lock protocol "
+              "of coarsening into the file being read with worker processes (TLC: no read while writing; lazy map and "
+              "yield-inside-lock variants refuted); real runs with 2-3 processes are recorded (lock acquisitions/releases of the "
+              "iterator and the writer, begin/end of every worker read, ordered by O_APPEND) and TLC replays the events through the "
+              "same transition relation (clause lockProtocol)."),
         design_ref="DESIGN.md section 6 C08, section 4.9", note="Trusted: TLC, structural projection; float columns restricted to multiples of 1/4 (exact sums).",
         technique="TLA+ model checking (TLC) of the coarsening algorithm + TLC trace validation of real coarsenings", category="model_checking"),
     "C09": dict(
@@ -109,7 +115,9 @@ CLAIMED = {
               "2-3-6-12, non-derivable members) x one or two base coolers x chunk sizes x workers; EVERY level is read back and "
               "compared by TLC with DIRECT coarsening of the base by the ratio of resolutions (CoarsenBy), the layout with exactly "
               "the requested and base resolutions, multires recognition, ValidCSR per level; the CLI resolution-spec spellings "
-              "(N, B, 4DN, <k>N, <k>B, lists) are expanded by the specification and compared with the levels written."),
+              "(N, B, 4DN, <k>N, <k>B, lists) are expanded by the specification and compared with the levels written; output paths "
+              "that already hold an earlier multires file, and bases that are not coarsenings of one another (own data and value "
+              "dtype, every level derivable from exactly one base) are included."),
         design_ref="DESIGN.md section 6 C09, section 4.9", note="Trusted: TLC, structural projection. Bases are fixed-width coolers.",
         technique="TLA+ model checking (TLC) of the predecessor search + TLC trace validation of real multires files", category="model_checking"),
     "C17": dict(
@@ -146,11 +154,13 @@ CLAIMED = {
               "pairing every operation kind with every source/destination pair and follow-up operations that expose sharing vs "
               "independence, plus seeded random histories of 2-12 operations) are executed on two real files; after EVERY operation "
               "both files are projected for 13 paths (content through the API, recognition, listing) and TLC applies the model's "
-              "operations step by step and compares (StoreTrace.tla)."),
+              "operations step by step and compares (StoreTrace.tla). Spec -> code: behaviours of 6 (thorough: 8) operations generated "
+              "by TLC's simulator from the same model (MC_StoreSim) are replayed into the real files in the same way."),
         design_ref="DESIGN.md section 6 C15, section 4.2",
         note=("Trusted: TLC, h5py/API projection. Out of the modelled domain (never generated; a history is not judged past such a "
-              "step): link loops, root as a link source, cross-file copy onto a non-empty root, destinations behind external links; "
-              "mv is judged within one file."),
+              "step): link loops, root as a link source, cross-file copy onto a non-empty root, destinations behind soft/external "
+              "links, a copy whose source path leads through an external link into the destination file; mv is judged within one "
+              "file."),
         technique="TLA+ model checking (TLC) of the object-graph store + TLC step-by-step validation of real operation histories",
         category="model_checking"),
     "C13": dict(
@@ -164,7 +174,8 @@ CLAIMED = {
               "index and position, iterator failures before every chunk and injected failures in the table/index/attribute "
               "writers, for six destination set-ups and random histories; TLC steps the model along the recorded points and "
               "compares the file view at each (stateAsModel) and evaluates the property predicates on the observed files; merge, "
-              "coarsen and unordered creation are run as producers into multi-collection files with injected failures."),
+              "coarsen and unordered creation are run as producers into multi-collection files with injected failures. Spec -> code: "
+              "behaviours generated by TLC's simulator from the writer model (MC_CreateSim) are replayed into create_cooler."),
         design_ref="DESIGN.md section 6 C13, section 4.3",
         note=("Trusted: TLC, h5py projection. Failures are Python exceptions at step boundaries (each step opens/closes the file), not "
               "HDF5-level torn writes. A failed re-creation over a previously recognised collection is outside the property's domain."),
